@@ -127,7 +127,7 @@ QReady == /\ rq = "closing" /\ ready' = TRUE /\ rq' = "done"
 (* ---------------- context ---------------- *)
 \* cancel() or the deadline passing; `how` is "canceled" or "expired"
 CancelAs(how) ==
-          /\ ctx = "live" /\ started /\ ctx' = how
+          /\ ctx = "live" /\ ctx' = how
           /\ IF sc.watch THEN SetErr("ctx") ELSE UNCHANGED <<err, prClosed>>
           /\ UNCHANGED <<sc, spc, sop, sleft, rpc, rleft, started, rq, ready, resp, pw, pending, env, log>>
 Cancel == CancelAs("canceled") \/ CancelAs("expired")
